@@ -72,6 +72,9 @@ type ChainSpec struct {
 	RootOnly bool
 	// Bulk > 0 adds a private padding extension of that many octets to the leaf (large entries).
 	Bulk int
+	// NotAfterUnix != 0 overrides the leaf's NotAfter (seconds since 1970; the UTCTime / GeneralizedTime
+	// switch of X.509 validity lies between 2049 and 2050).
+	NotAfterUnix int64
 }
 
 // Built is a resolved ChainSpec.
@@ -239,7 +242,11 @@ func Build(s ChainSpec) *Built {
 		exts = append(append(append([]pki.Ext{}, others[:p]...), pki.Poison()), others[p:]...)
 	}
 	algs := pki.SigAlgsFor(signer.Key)
-	t := pki.Template{Serial: new(big.Int).SetUint64(uint64(s.ID)<<8 | 1), Subject: pki.CN(cn), NotBefore: pki.Epoch.AddDate(0, -1, 0), NotAfter: pki.Epoch.Add(time.Duration(days) * 24 * time.Hour), Key: lk, Exts: exts, SigAlg: algs[mod(s.SigAlg, len(algs))]}
+	notAfter := pki.Epoch.Add(time.Duration(days) * 24 * time.Hour)
+	if s.NotAfterUnix != 0 {
+		notAfter = time.Unix(s.NotAfterUnix, 0).UTC()
+	}
+	t := pki.Template{Serial: new(big.Int).SetUint64(uint64(s.ID)<<8 | 1), Subject: pki.CN(cn), NotBefore: pki.Epoch.AddDate(0, -1, 0), NotAfter: notAfter, Key: lk, Exts: exts, SigAlg: algs[mod(s.SigAlg, len(algs))]}
 	b.Leaf = pki.Issue(signer, t, cn)
 	b.Path = []*pki.Cert{b.Leaf}
 	if b.PreIssuer != nil {
@@ -311,6 +318,14 @@ func (b *Built) ExtraData() []byte {
 	return out
 }
 
+// NotAfterBoundaries are expiry instants around the encoding switch of X.509 validity and at its far end.
+var NotAfterBoundaries = []int64{
+	time.Date(2049, 12, 31, 23, 59, 59, 0, time.UTC).Unix(), time.Date(2050, 1, 1, 0, 0, 0, 0, time.UTC).Unix(),
+	time.Date(2050, 7, 1, 12, 0, 0, 0, time.UTC).Unix(), time.Date(2050, 12, 31, 23, 59, 59, 0, time.UTC).Unix(),
+	time.Date(2051, 1, 1, 0, 0, 0, 0, time.UTC).Unix(), time.Date(2100, 2, 28, 0, 0, 1, 0, time.UTC).Unix(),
+	time.Date(9999, 12, 31, 23, 59, 59, 0, time.UTC).Unix(),
+}
+
 // GenSpecX draws a ChainSpec like GenSpec and, rarely, one of the unusual top-of-chain shapes: a twin of
 // the trusted root as last submitted certificate (1 in 5) or a trusted root submitted on its own (1 in 16).
 func GenSpecX(t *rapid.T, label string) ChainSpec {
@@ -320,6 +335,9 @@ func GenSpecX(t *rapid.T, label string) ChainSpec {
 		s.RootTwin = 1
 	case 1:
 		s.RootTwin = 2
+	}
+	if rapid.IntRange(0, 5).Draw(t, label+".na") == 0 {
+		s.NotAfterUnix = rapid.SampledFrom(NotAfterBoundaries).Draw(t, label+".notafter")
 	}
 	if len(s.Inters) > 0 && rapid.IntRange(0, 7).Draw(t, label+".nonull") == 0 {
 		// the issuing CA's RSA key is encoded without the NULL algorithm parameters
